@@ -368,20 +368,16 @@ def run(tier, seed):
                                  {'ncalls': n}, 'N=%d' % n)
     chk.sample({'recorded_trace_actions': [a for a, s in traces[0][1]][:12]})
     # 4. binding canary: corrupt one recorded field, the spec must reject it
-    tr = [list(x) for x in traces[1][1]]
-    for j in range(len(tr) - 1, 0, -1):
-        if any(tr[j][1]['fired']):
-            st = dict(tr[j][1])
-            fired = [list(x) for x in st['fired']]
-            k = [i for i, x in enumerate(fired) if x][0]
-            o = dict(fired[k][0])
-            o['from'] = o['from'] + 1
-            fired[k] = [o]
-            st['fired'] = tuple(tuple(x) for x in fired)
-            tr[j] = (tr[j][0], st)
-            break
-    rej, _ = core.validate_traces('MC_Calls', OBS, [tr], ACTIONS, cfg_consts=trace_cfg(traces[1][0]),
-                                  invs=[], nproc=1)
+    k0 = {'dl': False, 'ret': 'nocheck', 'nr': False}
+    tr = [list(x) for x in rerecord({'ncalls': 2}, [('Issue', (1, k0)), ('Issue', (2, k0)), ('Return', (1, 'one'))])]
+    st = dict(tr[-1][1])
+    fired = [list(x) for x in st['fired']]
+    o = dict(fired[0][0])
+    o['from'] = 2
+    fired[0] = [o]
+    st['fired'] = tuple(tuple(x) for x in fired)
+    tr[-1] = (tr[-1][0], st)
+    rej, _ = core.validate_traces('MC_Calls', OBS, [[tuple(x) for x in tr]], ACTIONS, cfg_consts=trace_cfg(2), invs=[], nproc=1)
     chk.canary = {'what': 'completion attributed to another call in one recorded state', 'rejected': bool(rej)}
     chk.assumptions = [
         'Twisted task.Clock stands in for the reactor (txdbus.client.reactor is replaced)',
